@@ -129,6 +129,7 @@ def run_trace_property(prop, tier, seed, jobs, model_runs=(), assumptions=None, 
         "samples": [sample_of(jobs[0]), sample_of(jobs[-1])],
         "events_judged": st["events"],
         "configs": sorted({j.cfg for j in jobs}),
+        "configs_left_out_because_they_do_not_build": sorted(engine.SKIPPED_CONFIGS),
         "false_guards_by_rule_including_known_and_other_properties": rules,
         "known_findings_seen": sorted(kf_seen),
         "exhaustive": False,
